@@ -63,10 +63,11 @@ Definition cmd_server_nick (k : skey) (m : imsg) : M unit :=
       DO ok <- create_session id "" (s_lastActivity s) IN
       if negb ok then retM tt        (* repaired code: the session limit is honoured *)
       else
-        updSess id (ss_nick p0) ;;;
-        modS (set_nicks (<[nick_to_lower p0 := id]>)) ;;;
+        (* ss.Nick = P0; i.nicks[lower] = ss; ss.Username = Params[3]; ss.Realname; updateIrcPrefix():
+           the out-of-range panic of Params[3] does not depend on the order *)
         DO p3 <- param m 3 IN
-        updSess id (fun t => update_prefix (ss_user_real p3 (trailing m) t)).
+        updSess id (ss_user_real p3 (trailing m)) ;;;
+        change_nick id p0 EmptyString false.
 
 Definition quit_pseudo (tk : skey) (m : imsg) : M unit :=
   DO t <- sessM tk IN DO sv <- getS IN
@@ -139,11 +140,15 @@ Definition cmd_server_join (k : skey) (m : imsg) : M unit :=
       | Some tk =>
           let lc := chan_to_lower channelname in
           let created := negb (bool_decide (is_Some (sv_channels sv !! lc))) in
-          let c0 := match sv_channels sv !! lc with Some c => c | None => new_chan channelname ∅ end in
-          add_member lc c0 nick tk created ;;;
-          DO sv <- getS IN DO t <- sessM tk IN
-          DO common <- liftR (rc_common sv t) IN
-          emit common (usrmsg (services_prefix pfx) "JOIN" [channelname])
+          let limit := g_maxChannels (sv_config sv) in
+          if created && (limit <=? N.of_nat (size (sv_channels sv)))%N && (0 <? limit)%N then
+            reply_svc "403" [pn; channelname; "No such channel"]     (* repaired code: the channel limit *)
+          else
+            let c0 := match sv_channels sv !! lc with Some c => c | None => new_chan channelname ∅ end in
+            add_member lc c0 nick tk created ;;;
+            DO sv <- getS IN
+            DO rc <- liftR (rc_channel sv (cc_nicks (<[nick := (created, false)]>) c0)) IN
+            emit rc (usrmsg (services_prefix pfx) "JOIN" [channelname])   (* repaired code: the channel only *)
       end).
 
 Definition cmd_server_part (k : skey) (m : imsg) : M unit :=
@@ -161,9 +166,8 @@ Definition cmd_server_part (k : skey) (m : imsg) : M unit :=
           match sv_nicks sv !! nick_to_lower pn with
           | None => panicM "nil pointer: session of a channel member"
           | Some tk =>
-              DO t <- sessM tk IN
-              DO common <- liftR (rc_common sv t) IN
-              emit common (usrmsg (services_prefix pfx) "PART" [channelname]) ;;;
+              DO rc <- liftR (rc_channel sv c) IN
+              emit rc (usrmsg (services_prefix pfx) "PART" [channelname]) ;;;   (* repaired code: the channel only *)
               leave_channel lc (nick_to_lower pn) tk
           end
     end).
@@ -199,6 +203,10 @@ Definition cmd_server_svsjoin (k : skey) (m : imsg) : M unit :=
       else
         let lc := chan_to_lower channelname in
         let created := negb (bool_decide (is_Some (sv_channels sv !! lc))) in
+        let limit := g_maxChannels (sv_config sv) in
+        if created && (limit <=? N.of_nat (size (sv_channels sv)))%N && (0 <? limit)%N then
+          DO pn <- prefix_name m IN reply_svc "403" [pn; channelname; "No such channel"]   (* repaired code *)
+        else
         let c0 := match sv_channels sv !! lc with Some c => c | None => new_chan channelname ∅ end in
         if bool_decide (is_Some (c_nicks c0 !! nick)) then retM tt
         else
